@@ -464,7 +464,8 @@ Lemma str_path_spec s sep en :
 Proof.
   unfold str_path.
   destruct (path_set_str_spec (path_init sep en) s) as (p & n & Hs & Hw & He & H1 & H2 & _ & Hn).
-  rewrite Hs. cbn [cbind]. exists p. repeat split; assumption.
+  rewrite Hs. cbn [cbind]. exists p. cbn in H1, H2, He.
+  split; [reflexivity|]. split; [assumption|]. split; [assumption|]. split; [assumption|]. split; assumption.
 Qed.
 
 Lemma str_path_null sep en :
@@ -484,5 +485,6 @@ Proof.
     split; [assumption|]. rewrite He. cbn [str_key]. f_equal.
     (* cutting an already NUL-free string at NUL changes nothing *)
     destruct (cstr_facts s) as (_ & _ & Hn). rewrite upto_index, Hn. reflexivity.
-  - destruct (str_path_null sep 0%N) as (p & Hp & Hw & _ & He). exists p. repeat split; assumption.
+  - destruct (str_path_null sep 0%N) as (p & Hp & Hw & _ & He). exists p.
+    split; [assumption|]. split; [assumption|]. rewrite He. reflexivity.
 Qed.
